@@ -21,8 +21,10 @@
 //	nw.Cut(a, b) / nw.CutOneWay(a, b)   // block a<->b / a->b (dials fail, writes fail, conns closed)
 //	nw.Partition([]string{..}, ...)     // cut every link between different groups (replaces earlier cuts)
 //	nw.Isolate(n)                       // cut n from every other known node (adds to earlier cuts)
-//	nw.Heal()                           // remove all cuts and delays
+//	nw.Deafen(n)                        // writes of every other node towards n are silently discarded (n still talks)
+//	nw.Heal()                           // remove all cuts, deafness and delays
 //	nw.SetDelay(a, b, d)                // every write a->b and b->a sleeps d first (0 = off)
+//	nw.SetDelayOneWay(a, b, d)          // only writes a->b sleep d first
 //	nw.DropNode(n)                      // close every connection from or to n (used by crash)
 //	nw.Blocked(a, b)                    // is a->b cut?
 //	nw.Close()                          // close all listeners and connections
@@ -61,12 +63,13 @@ type Network struct {
 	byAddr  map[string]string    // listen address -> node name
 	dialers map[string]string    // local address of a dialed conn -> dialing node
 	cut     map[pair]bool
+	hole    map[pair]bool // writes from->to are silently discarded (connection stays open)
 	delay   map[pair]time.Duration
 	conns   map[*Conn]struct{}
 	closed  bool
 
 	// Counters (read with Stats).
-	nDial, nDialCut, nWriteCut, nConnKilled atomic.Int64
+	nDial, nDialCut, nWriteCut, nConnKilled, nSwallowed atomic.Int64
 }
 
 type endpoint struct {
@@ -83,6 +86,7 @@ func New() *Network {
 		byAddr:  map[string]string{},
 		dialers: map[string]string{},
 		cut:     map[pair]bool{},
+		hole:    map[pair]bool{},
 		delay:   map[pair]time.Duration{},
 		conns:   map[*Conn]struct{}{},
 	}
@@ -321,8 +325,13 @@ func (c *Conn) Write(b []byte) (int, error) {
 	n.mu.Lock()
 	p := c.peerLocked()
 	blocked := p != "" && n.cut[pair{c.local, p}]
+	swallowed := p != "" && n.hole[pair{c.local, p}]
 	d := n.delay[pair{c.local, p}]
 	n.mu.Unlock()
+	if swallowed {
+		n.nSwallowed.Add(1)
+		return len(b), nil
+	}
 	if blocked {
 		n.nWriteCut.Add(1)
 		c.Close()
@@ -425,10 +434,25 @@ func (n *Network) Isolate(node string) {
 	kill()
 }
 
-// Heal removes all cuts and delays.
+// Deafen makes node deaf: everything any other known node writes to it is
+// silently discarded (the writer sees success, connections stay open, dials
+// succeed), while what node itself sends is still delivered. This models lost
+// messages towards one node, which a closed TCP stream cannot express.
+func (n *Network) Deafen(node string) {
+	n.mu.Lock()
+	for _, o := range n.namesLocked() {
+		if o != node {
+			n.hole[pair{o, node}] = true
+		}
+	}
+	n.mu.Unlock()
+}
+
+// Heal removes all cuts, deafness and delays.
 func (n *Network) Heal() {
 	n.mu.Lock()
 	n.cut = map[pair]bool{}
+	n.hole = map[pair]bool{}
 	n.delay = map[pair]time.Duration{}
 	n.mu.Unlock()
 }
@@ -442,6 +466,18 @@ func (n *Network) SetDelay(a, b string, d time.Duration) {
 	} else {
 		n.delay[pair{a, b}] = d
 		n.delay[pair{b, a}] = d
+	}
+	n.mu.Unlock()
+}
+
+// SetDelayOneWay makes every write from -> to sleep d first (d=0 removes it);
+// the opposite direction is not touched.
+func (n *Network) SetDelayOneWay(from, to string, d time.Duration) {
+	n.mu.Lock()
+	if d <= 0 {
+		delete(n.delay, pair{from, to})
+	} else {
+		n.delay[pair{from, to}] = d
 	}
 	n.mu.Unlock()
 }
@@ -469,7 +505,7 @@ func (n *Network) Stats() map[string]int64 {
 	n.mu.Unlock()
 	return map[string]int64{
 		"dials": n.nDial.Load(), "dials_cut": n.nDialCut.Load(), "writes_cut": n.nWriteCut.Load(),
-		"conns_killed": n.nConnKilled.Load(), "conns_open": open,
+		"conns_killed": n.nConnKilled.Load(), "conns_open": open, "writes_swallowed": n.nSwallowed.Load(),
 	}
 }
 
